@@ -82,10 +82,7 @@ Theorem C19_make_bigraph : forall g, wf g ->
   exists insl, mk_ins g = Ok insl /\ length insl = length g /\
     forall b, b < length g ->
       exists ps, nth_error insl b = Some ps /\ length ps = indeg g b /\ forall p, In p ps <-> In b (succs g p).
-Proof.
-  intros g Hwf. destruct (mk_ins_spec g Hwf) as [insl [E [Hl Hn]]]. exists insl. split; [exact E|]. split; [exact Hl|].
-  intros b Hb. exists (ins_spec g b). split; [exact (Hn b Hb)|]. split; [apply ins_spec_length | intros p; apply ins_spec_In].
-Qed.
+Proof. exact make_bigraph_spec. Qed.
 Print Assumptions C19_make_bigraph.
 
 (* DomFrontier given the correct idom: on every well-formed graph (unreachable nodes, self-loops,
@@ -126,26 +123,43 @@ Theorem C19_postorder : forall g, wf g -> forall fuel r, r < length g -> length 
 Proof. exact rpostorder_spec. Qed.
 Print Assumptions C19_postorder.
 
-(* ---- IDom = idom_spec (total up to the bound on the number of sweeps) ---- *)
+(* ---- IDom = idom_spec, for every graph and root ---- *)
 (* On EVERY well-formed graph (unreachable nodes, self-loops, parallel edges, irreducible loops
-   included) and every root, with fuel >= 2V+1: the model of IDom never panics — no slice index
-   out of range, intersect never follows a -1 link and always meets — and if the outer
-   "for changed" loop stops within [fuel] sweeps, the result is exactly idom_spec_list.
-   (NoFuel can only come from the outer loop: PostOrder, intersect and each sweep are shown
-   to complete.)  The bound on the number of sweeps is NOT proved: see meta/C19.json, partial. *)
-Theorem C19_idom_chk_correct_partial : forall g r fuel, wf g -> r < length g -> 2 * length g + 1 <= fuel ->
-  idom_chk fuel g r = NoFuel \/ idom_chk fuel g r = Ok (idom_spec_list g r).
-Proof. exact chk_correct_partial. Qed.
-Print Assumptions C19_idom_chk_correct_partial.
+   included) and every root, with fuel >= (V+1)^2 the model of IDom (Cooper-Harvey-Kennedy as
+   written in dom.go:11-82, on top of PostOrder and MakeBiGraph) returns exactly idom_spec_list:
+   it never panics (no slice index out of range, intersect never follows a -1 link and always
+   meets), it terminates (at most V*V+1 sweeps), and the value is the closest strict dominator
+   of every reachable node other than the root and -1 elsewhere. *)
+Theorem C19_idom_chk_total : forall g r fuel, wf g -> r < length g ->
+  (length g + 1) * (length g + 1) <= fuel ->
+  idom_chk fuel g r = Ok (idom_spec_list g r).
+Proof. exact chk_total. Qed.
+Print Assumptions C19_idom_chk_total.
+
+(* ---- the three API functions together ---- *)
+(* IDom, then DomFrontier and Dom on its result: none panics or diverges, and the results are the
+   specification (frontiers up to the root carve-out, child lists = inversion of IDom). *)
+Theorem C19_idom_dom_frontier_end_to_end : forall g r fuel, wf g -> r < length g ->
+  (length g + 1) * (length g + 1) <= fuel ->
+  exists idom df ch,
+    idom_chk fuel g r = Ok idom /\ idom = idom_spec_list g r /\
+    dom_frontier fuel g r idom = Ok df /\ length df = length g /\
+    (forall x, x < length g -> exists c, nth_error df x = Some c /\
+       forall y, In y c <-> (In y (df_spec g r x) /\ ~ (y = r /\ indeg g r = 1))) /\
+    dom_children idom = Ok ch /\ length ch = length g /\
+    (forall i, i < length g -> exists c, nth_error ch i = Some c /\
+       forall j, In j c <-> idom_spec g r j = Some i /\ j < length g).
+Proof. exact idom_dom_frontier_end_to_end. Qed.
+Print Assumptions C19_idom_dom_frontier_end_to_end.
 
 (* ---- non-vacuity: Cooper-Harvey-Kennedy's irreducible example (their figure 4, nodes renumbered
    5->0 .. 1->4), with an unreachable node 5 feeding the join 4 and a self-loop on 3 ---- *)
 Definition ex_g : graph := [[1; 2]; [4]; [3]; [4; 3]; [3]; [4; 5]].
 Example C19_example :
   idom_spec_list ex_g 0 = [None; Some 0; Some 0; Some 0; Some 0; None] /\
-  idom_chk 16 ex_g 0 = Ok (idom_spec_list ex_g 0) /\
+  idom_chk 49 ex_g 0 = Ok (idom_spec_list ex_g 0) /\
   map (df_spec ex_g 0) [0; 1; 2; 3; 4; 5] = [[]; [4]; [3]; [4; 3]; [3]; []] /\
-  dom_frontier 16 ex_g 0 (idom_spec_list ex_g 0) = Ok [[]; [4]; [3]; [3; 4]; [3]; []] /\
+  dom_frontier 49 ex_g 0 (idom_spec_list ex_g 0) = Ok [[]; [4]; [3]; [3; 4]; [3]; []] /\
   dom_children (idom_spec_list ex_g 0) = Ok [[1; 2; 3; 4]; []; []; []; []; []] /\
   dominatesb ex_g 0 0 4 = true /\ dominatesb ex_g 0 1 4 = false /\ dominatesb ex_g 0 5 4 = false.
 Proof. vm_compute. repeat split; reflexivity. Qed.
